@@ -58,6 +58,10 @@ func resCode(s string) (uintptr, error) {
 		return 8, nil
 	case "r9":
 		return 9, nil
+	case "rWide":
+		return uintptr(1) << 32, nil
+	case "rTop":
+		return uintptr(1) << 63, nil
 	}
 	panic("bad result code " + s)
 }
@@ -113,6 +117,12 @@ func (d *scriptedDevice) Ioctl(cmd uintptr, arg any) (uintptr, error) {
 		case "max":
 			hdr.OutLen = 0xffffffff
 		case "unwritten": // the field keeps what the client sent
+		}
+		switch d.caseDev["len"] { // some drivers treat the request length as in/out
+		case "raised":
+			req.Length = 1 << 20
+		case "zeroed":
+			req.Length = 0
 		}
 		d.outLen = hdr.OutLen
 		d.written = append([]byte{}, hdr.Data[:]...)
@@ -211,7 +221,7 @@ func RunClientCase(cs map[string]any, id int, seed int64, tmp string) Result {
 	// an earlier successful call in this process, on the goroutine of the call under test, with a longer quote of its own
 	var prior func()
 	if cs["prior"] == "good" {
-		good := map[string]any{"rr": "r0", "qr": "r0", "st": "s0", "ol": "exact", "buf": "quote"}
+		good := map[string]any{"rr": "r0", "qr": "r0", "st": "s0", "ol": "exact", "buf": "quote", "len": "kept"}
 		pq := append(append([]byte{}, quote...), RandBytes(rng, 3000)...)
 		var prd [64]byte
 		rng.Read(prd[:])
